@@ -2,6 +2,7 @@ package main
 
 import (
 	"go/token"
+	"go/types"
 	"strings"
 
 	"golang.org/x/tools/go/ssa"
@@ -154,6 +155,20 @@ func checkC11(c *Ctx, r *Report) {
 	r.NotDecided = []string{"matching among replies to the same command (the library always uses message sequence number 1)", "that the response NetFn is computed as request NetFn + 1 (only provenance of the compared value is checked)"}
 	r.Trusted = []string{"go/types, go/ssa (x/tools v0.29.0)", "gopacket LayersDecoder fills the registered message layer from the reply"}
 	checkReplyMatchesRequest(c, r)
+	// the comparisons read the connection's message layer, which also held the request: they say
+	// something about the reply only if the decoder overwrote network function and command with
+	// the reply's on every success path (rules shared with C17 and C07)
+	checkDecoderAssignment(c, r, "message-decoder-overwrites", 1, func(n *types.Named) bool { return n.Obj().Name() == "Message" })
+	r.Rule("message-decoder-layout", "the message decoder takes network function, command and completion code from the specified bytes of the reply", 3)
+	{
+		var specs []layerSpec
+		for _, sp := range responseSpecs {
+			if sp.Type == "Message" {
+				specs = append(specs, sp)
+			}
+		}
+		compareSpec(c, r, specs, "field", map[string][]string{})
+	}
 
 	// one write followed by one read per attempt
 	checkOneWriteOneRead(c, r)
